@@ -766,12 +766,13 @@ def emit_coq(entries, docs, path):
 # ---------------------------------------------------------------- executing every surface: generated Rust
 NPROBE = 6
 ROLE_VAL = {"target": 1, "targets": [3, 0], "control": 4, "controls": [5, 4], "control1": 5, "control2": 4, "target1": 1, "target2": 3}
-OP_PARAMS = {"P": ["0.7"], "RX": ["0.7"], "RY": ["0.7"], "RZ": ["0.7"], "U2": ["UMAT"], "RYP": ["0.9", "0.4"], "RYPdag": ["0.9", "0.4"],
-             "Match": ["0.9", "0.4", "1.3"]}
+# probe angles lie beyond one turn (an odd number of 2*pi wraps), so that a wrong period shows
+OP_PARAMS = {"P": ["7.3"], "RX": ["7.3"], "RY": ["7.3"], "RZ": ["7.3"], "U2": ["UMAT"], "RYP": ["6.9", "-3.7"], "RYPdag": ["6.9", "-3.7"],
+             "Match": ["6.9", "0.4", "-4.1"]}
 OP_CTOR = {"H": "Hadamard", "X": "Pauli::X", "Y": "Pauli::Y", "Z": "Pauli::Z", "I": "Identity", "S": "PhaseS", "T": "PhaseT", "Sdag": "PhaseSdag",
-           "Tdag": "PhaseTdag", "P": "PhaseShift::new(0.7)", "RX": "RotateX::new(0.7)", "RY": "RotateY::new(0.7)", "RZ": "RotateZ::new(0.7)",
-           "U2": "Unitary2::new(UMAT).unwrap()", "RYP": "Unitary2::from_ry_phase(0.9, 0.4)", "RYPdag": "Unitary2::from_ry_phase_dagger(0.9, 0.4)",
-           "CNOT": "CNOT", "SWAP": "SWAP", "Toffoli": "Toffoli", "Match": "Matchgate::new(0.9, 0.4, 1.3)"}
+           "Tdag": "PhaseTdag", "P": "PhaseShift::new(7.3)", "RX": "RotateX::new(7.3)", "RY": "RotateY::new(7.3)", "RZ": "RotateZ::new(7.3)",
+           "U2": "Unitary2::new(UMAT).unwrap()", "RYP": "Unitary2::from_ry_phase(6.9, -3.7)", "RYPdag": "Unitary2::from_ry_phase_dagger(6.9, -3.7)",
+           "CNOT": "CNOT", "SWAP": "SWAP", "Toffoli": "Toffoli", "Match": "Matchgate::new(6.9, 0.4, -4.1)"}
 
 def role_value(role, op):
     if role == "targets" and op == "SWAP": return [1, 3]
@@ -880,11 +881,11 @@ fn main() {
     std::io::stdin().lock().read_line(&mut line).unwrap();
     let inp: Value = serde_json::from_str(&line).unwrap();
     // libm values the model needs, computed here exactly as the operators compute them
-    let mut ryp = cs(0.9 / 2.0); ryp.extend(cs(0.4));
-    let mut rypd = cs(0.9 / 2.0); rypd.extend(cs(-0.4));
-    let mut mt = cs(0.9 / 2.0); mt.extend(cs(0.4)); mt.extend(cs(1.3));
+    let mut ryp = cs(6.9 / 2.0); ryp.extend(cs(-3.7));
+    let mut rypd = cs(6.9 / 2.0); rypd.extend(cs(3.7));
+    let mut mt = cs(6.9 / 2.0); mt.extend(cs(0.4)); mt.extend(cs(-4.1));
     let u: Vec<String> = UMAT.iter().flat_map(|r| r.iter().flat_map(|c| [hexf(c.re), hexf(c.im)])).collect();
-    println!("{}", json!({"oracles": {"P": cs(0.7), "RX": cs(0.7 / 2.0), "RY": cs(0.7 / 2.0), "RZ": cs(0.7 / 2.0), "U2": u, "RYP": ryp, "RYPdag": rypd, "Match": mt}}));
+    println!("{}", json!({"oracles": {"P": cs(7.3), "RX": cs(7.3 / 2.0), "RY": cs(7.3 / 2.0), "RZ": cs(7.3 / 2.0), "U2": u, "RYP": ryp, "RYPdag": rypd, "Match": mt}}));
     for (p, pv) in inp["probes"].as_array().unwrap().iter().enumerate() {
         let flat: Vec<f64> = pv.as_array().unwrap().iter().map(|h| f64::from_bits(u64::from_str_radix(h.as_str().unwrap(), 16).unwrap())).collect();
         let st = State { state_vector: flat.chunks(2).map(|c| Complex::new(c[0], c[1])).collect(), num_qubits: N };
